@@ -56,7 +56,7 @@ def detect(src, prop, tier="quick", extra=()):
             return {"error": "patch failed " + r.stdout + r.stderr}
         env = dict(os.environ, VERIF_PEST_SRC=os.path.join(d, "src"), VERIF_EVIDENCE_DIR=os.path.join(d, "ev"), VERIF_REPLAY_DIR=os.path.join(d, "replays"))
         t0 = time.time()
-        r = sh([PY, "-B", "/verif/vpest_main.py", prop, "--tier", tier, *extra], env=env, timeout=7200)
+        r = sh([PY, "-B", os.environ.get("VERIF_MAIN", "/verif/vpest_main.py"), prop, "--tier", tier, *extra], env=env, timeout=7200)
         sigs = re.findall(r"violation (\S+) \(", r.stdout)
         descr = [l.strip()[:300] for l in r.stdout.splitlines() if l.startswith("    ")][:4]
         return {"exit": r.returncode, "violation_line": ("VIOLATION property=" + prop) in r.stdout, "signatures": sigs, "first": descr, "wall_s": round(time.time() - t0, 1), "tail": r.stdout.strip().splitlines()[-2:]}
